@@ -13,7 +13,8 @@ def table(tier):
         ons = 0 if okind in (2, 4) else 1
         for already, revrel, cp, ctrl, force, pko, cache in itertools.product(
                 (False, True), ("none", "bad", "lt", "eq", "gt"), (0, 1, 2),
-                ("none", "foreign", "prev", "prevremote", "prevnoctrl"), (False, True), (False, True), (True, False)):
+                ("none", "foreign", "prev", "prevremote", "prevnoctrl"), (False, True), (0, 1, 2), (True, False)):
+            # pko: package label of the existing object - 0 none, 1 "package-operator" (forced adoption), 2 another package's
             if tier == "quick" and (not cache) and (force or pko):
                 continue  # cache=false only changes the read path; keep it for the unforced rows in quick
             owner = pl.mk_owner(okind, ons, 10, 100, 5)
@@ -38,7 +39,7 @@ def table(tier):
                     continue  # two controllers: not a state the API server admits
                 refs.append([okind, 10, 100, 1])
             rev = {"none": None, "bad": "bad", "lt": 4, "eq": 5, "gt": 6}[revrel]
-            o = pl.mk_obj(1, 1, 1, 7, 3, rev=rev, cache=cache, pkg=1 if pko else 0, body=2)
+            o = pl.mk_obj(1, 1, 1, 7, 3, rev=rev, cache=cache, pkg=pko, body=2)
             o["aowners" if annot else "owners"] = refs
             out.append({"flavor": flavor, "force": force, "owner": owner, "prev": prev, "store": [o],
                         "next_rv": 50, "next_uid": 60, "op": "reconcile",
